@@ -992,6 +992,9 @@ func (node *Node) checkTxDelays(ctx context.Context) {
 			break
 		}
 
+		// The tx states are also updated when txs and blocks are processed, so they are only read and
+		// written here while neither is.
+		node.blockLock.Lock()
 		for _, txid := range txids {
 			txState, err := internalStorage.FetchTxState(ctx, node.store, txid)
 			if err != nil {
@@ -1019,6 +1022,7 @@ func (node *Node) checkTxDelays(ctx context.Context) {
 				handler.HandleTxUpdate(ctx, update)
 			}
 		}
+		node.blockLock.Unlock()
 	}
 }
 
